@@ -117,20 +117,23 @@ theorem detSamp2_qaz_exact (ub : UBIn ℝ) (U : M3 ℝ) (hU : IsRot U) (hUB : ub
                                linarith) hreach]
   field_simp; ring
 
-/-- **any detector constraint (delta, nu or qaz) + two sample angles, end to end**: all 27 mode shapes of this class -/
+/-- **any detector constraint (delta, nu or qaz) + two sample angles, end to end**: all 27 mode shapes of this class.
+    Every side condition is on a value the solver itself produced (the detector triples of `detRemaining`, the tuple at hand). -/
 theorem detSamp2_exact (ub : UBIn ℝ) (U : M3 ℝ) (hU : IsRot U) (hUB : ub.UB = M3.mul U ub.B) (hB : M3.det ub.B ≠ 0)
     (det : DetCon ℝ) (s : Samp2Det ℝ) (hkl : V3 ℝ) (wl : ℝ) (hwl : 0 < wl)
     (hne : 0 < V3.norm (M3.mulVec ub.B hkl)) (hn : 0 < V3.norm ub.n_phi)
     (hreach : wl * V3.norm (M3.mulVec ub.B hkl) / (4 * Real.pi) ≤ 1)
     (hx : (1e-7 : ℝ) < V3.norm (V3.cross (V3.unit (M3.mulVec ub.UB hkl)) (V3.unit ub.n_phi)))
     (hdgen : DetGeneric det (Real.arcsin (wl * V3.norm (M3.mulVec ub.B hkl) / (4 * Real.pi))))
-    (hgen : ∀ N, calcN (M3.mulVec ub.UB hkl) ub.n_phi = .ok N → ∀ qaz,
-      Samp2DetGeneric s N (Real.arcsin (wl * V3.norm (M3.mulVec ub.B hkl) / (4 * Real.pi))) qaz)
+    (hgen : ∀ N, calcN (M3.mulVec ub.UB hkl) ub.n_phi = .ok N →
+      ∀ ds, detRemaining det (Real.arcsin (wl * V3.norm (M3.mulVec ub.B hkl) / (4 * Real.pi))) = .ok ds → ∀ t ∈ ds,
+      Samp2DetGeneric s N (Real.arcsin (wl * V3.norm (M3.mulVec ub.B hkl) / (4 * Real.pi))) t.2.2)
     (l : List (Sol ℝ)) (h : candidates ub (.detSamp2 det s) hkl wl = .ok l) :
     ∀ sol ∈ l, ∀ N, calcN (M3.mulVec ub.UB hkl) ub.n_phi = .ok N →
       Scalar.isSmall (Real.cos sol.2.1) = false → Scalar.isSmall (Real.sin sol.2.1) = false → Scalar.isSmall (Real.sin sol.2.2.1) = false →
-      (∀ qaz, Scalar.isSmall (Real.sin qaz) = false ∧
-        ClipMuEta N (Real.arcsin (wl * V3.norm (M3.mulVec ub.B hkl) / (4 * Real.pi))) qaz (sol.1, sol.2.2.2.1, sol.2.2.2.2.1, sol.2.2.2.2.2)) →
+      (∀ ds, detRemaining det (Real.arcsin (wl * V3.norm (M3.mulVec ub.B hkl) / (4 * Real.pi))) = .ok ds → ∀ t ∈ ds,
+        t.1 = sol.2.1 → t.2.1 = sol.2.2.1 → Scalar.isSmall (Real.sin t.2.2) = false ∧
+        ClipMuEta N (Real.arcsin (wl * V3.norm (M3.mulVec ub.B hkl) / (4 * Real.pi))) t.2.2 (sol.1, sol.2.2.2.1, sol.2.2.2.2.1, sol.2.2.2.2.2)) →
       C04.fwd ub.UB sol.1 sol.2.1 sol.2.2.1 sol.2.2.2.1 sol.2.2.2.2.1 sol.2.2.2.2.2 wl = hkl := by
   set theta := Real.arcsin (wl * V3.norm (M3.mulVec ub.B hkl) / (4 * Real.pi)) with hth
   have hpi := Real.pi_pos
@@ -187,10 +190,11 @@ theorem detSamp2_exact (ub : UBIn ℝ) (U : M3 ℝ) (hU : IsRot U) (hUB : ub.UB 
           | .ok v => .ok (v.map fun x_1 => (x_1.1, x.1, x.2.1, x_1.2.1, x_1.2.2.1, x_1.2.2.2))) = .ok l := by
       rw [← h]; congr 1; funext x; cases twoSampleDetector s x.2.2 theta N <;> rfl
     obtain ⟨t, ht, ss, hss, hin, hd, hnu⟩ := key _ l (fun t ht => ht) h' sol hsol
-    have hsamp := twoSampleDetector_sound s t.2.2 theta N hNunit (hgen N hN t.2.2)
-    have hS := hsamp ss hss _ hin (hq t.2.2).2
+    have hqt := hq ds hds t ht hd.symm hnu.symm
+    have hsamp := twoSampleDetector_sound s t.2.2 theta N hNunit (hgen N hN ds hds t ht)
+    have hS := hsamp ss hss _ hin hqt.2
     have hD : DetSpec sol.2.1 sol.2.2.1 t.2.2 theta := by
-      have := detRemaining_sound det theta hdgen ds hds t ht (by rw [← hd]; exact hcd) (by rw [← hd]; exact hsd) (by rw [← hnu]; exact hsn) (hq t.2.2).1
+      have := detRemaining_sound det theta hdgen ds hds t ht (by rw [← hd]; exact hcd) (by rw [← hd]; exact hsd) (by rw [← hnu]; exact hsn) hqt.1
       rw [← hd, ← hnu] at this; exact this
     apply composition ub.UB hdetUB _ _ _ _ _ _ t.2.2 theta wl hkl hD
     unfold SampleSpec at hS
